@@ -70,9 +70,30 @@ CHECKS = [
       text='Proved in Lean for every history and every fold function: all observations equal those of a map from folded names to the latest entry (env_refines), spelling irrelevance, remove returns stored, clear keeps functions, '
            'namespaces disjoint, evaluation invariant under case changes of identifiers (eval_case_invariant). Tie: all histories <=3/<=4 over a 19-op alphabet with every lookup after every step + random long histories; falsifier: BTreeMap reference.',
       note=TB + 'which non-ASCII spellings fold together is str::to_lowercase\'s business (tables from Rust std).'),
+
+ dict(property_id='C08', design_ref='DESIGN.md 7 C08',
+      technique='Lean 4 totality/termination/bounded-work theorems over unrestricted trees + crash-observing correspondence on ill-formed and deep trees in child processes',
+      text='PARTIAL by nature: the model\'s tree functions are total structural recursions over an inductive type without well-formedness conditions; proved: optimize never runs out of fuel (<= 2*nodes+1 rounds), execution performs at most one event per node, '
+           'validators decide every tree, misplaced operators are error values. "Returns normally" for the CODE rests on the tie: every tree stream on the ill-formed generator and on spines nested to 64, in worker processes (class ok/err/crash/timeout).',
+      note=TB + 'real stack depth / time observed, not proved.'),
+ dict(property_id='C09', design_ref='DESIGN.md 7 C09',
+      technique='Lean 4 proofs of SLAC\'s own index arithmetic + kernel-decided regenerated dispatch table + crash-observing call stream in 4 builds',
+      text='PARTIAL by nature: the builtin models are total functions without a panic outcome. Proved: get_index/get_string_index never underflow and are exact in both offset configurations; on the table regenerated from the running crate no builtin panicked on any of 1365 kind tuples (decide +kernel). '
+           'The tie runs all 77 builtins on boundary-heavy argument lists in worker processes in all 4 builds and compares answers with the model. Recorded known finding: sort() on collections outside the Safe ordering domain can panic inside slice::sort.',
+      note=TB + 'panics inside chrono / slice::sort / regex-lite, memory and time are visible only to the crash-observing run.'),
+ dict(property_id='C14', design_ref='DESIGN.md 7 C14',
+      technique='Lean 4: builtin models are functions of their arguments; kernel-decided regenerated registry table; folding-is-calling theorem + repeated-call and two-process determinism check',
+      text='PARTIAL by nature: every pure builtin\'s model is a Lean function of its argument list (no state/clock/seed), so the content is the tie; proved: exactly random and choice are registered impure (regenerated table), folding a pure call writes exactly env.call\'s answer, impure calls are never folded, unique is first-occurrence dedup by ==. '
+           'Observation: each argument list evaluated 20x in-process with other calls in between and in two separate processes.',
+      note=TB + '"fresh process, different hasher seed" is observation.'),
+ dict(property_id='C18', design_ref='DESIGN.md 7 C18',
+      technique='Lean 4 proofs about the regex wrappers over an abstract engine, relative to stated engine laws + wrapper correspondence with shipped raw engine answers',
+      text='PARTIAL by nature: regex-lite is not modelled. The four wrappers are modelled over an abstract Engine; proved: is_match iff find non-empty, capture shape and equal lengths, replace = replacen with the documented defaults and limit, escaped literals = contains/count/replace — each relative to explicit engine laws — and invalid pattern => error with no law. '
+           'Tie: wrapper outputs compared exactly given the raw engine answers; the laws and the property\'s relations are evaluated on the crate by relaw.',
+      note=TB + 'engine laws (LawfulEngine, ReplacenSplices, LiteralLaw) are hypotheses sampled as tests.'),
 ]
 _PENDING = 'not yet claimed: its model, theorems and streams are under construction in this framework (see DESIGN.md section 12, build order)'
 NOT_APPLICABLE = [dict(property_id=p, reason=_PENDING) for p in
-                  ['C08','C09','C14','C15','C16','C17','C18']]
+                  ['C15','C16','C17']]
 NOTES = ('All checks share one engine: tools/check.py <id>. Replays: tools/check.py <id> --replay <file>. '
          'known_findings.json lists recorded defects (KNOWN-FINDING lines) and fixed ones.')
